@@ -189,6 +189,22 @@ def ops_for(obj, pool, msg_types, passive=()):
         ]
         from hplmc.ref import types as T
 
+        # constructors of every node class around the existing object (where its type allows it)
+        names = T.names_of(int(obj.data_type.value))
+        xs_ = lambda: A.HplFieldAccess(A.HplThisMessage(), 'xs')  # noqa: E731
+        one = lambda: A.HplLiteral('1', 1)  # noqa: E731
+        if 'NUMBER' in names:
+            ops += [('HplArrayAccess(xs, obj)', lambda: A.HplArrayAccess(xs_(), obj)), ('HplRange(obj, 1)', lambda: A.HplRange(obj, one())),
+                    ('HplUnaryOperator(-, obj)', lambda: A.HplUnaryOperator('-', obj)), ('HplBinaryOperator(+, obj, 1)', lambda: A.HplBinaryOperator('+', obj, one())),
+                    ('HplBinaryOperator(<, 1, obj)', lambda: A.HplBinaryOperator('<', one(), obj)), ('HplFunctionCall(abs, obj)', lambda: A.HplFunctionCall('abs', (obj,)))]
+        if names & T.PRIMITIVE:
+            ops += [('HplSet((obj, 1))', lambda: A.HplSet((obj, one()))), ('HplBinaryOperator(=, obj, 1)', lambda: A.HplBinaryOperator('=', obj, one())),
+                    ('HplBinaryOperator(in, obj, xs)', lambda: A.HplBinaryOperator('in', obj, xs_())), ('HplFunctionCall(str, obj)', lambda: A.HplFunctionCall('str', (obj,)))]
+        if 'MESSAGE' in names:
+            ops += [('HplFieldAccess(obj, f)', lambda: A.HplFieldAccess(obj, 'f')), ('HplFunctionCall(yaw, obj)', lambda: A.HplFunctionCall('yaw', (obj,)))]
+        if 'ARRAY' in names:
+            ops += [('HplArrayAccess(obj, 1)', lambda: A.HplArrayAccess(obj, one())), ('HplFunctionCall(len, obj)', lambda: A.HplFunctionCall('len', (obj,))),
+                    ('HplQuantifier(forall i in obj)', lambda: A.HplQuantifier('forall', 'i', obj, A.HplBinaryOperator('>', A.HplVarReference('@i'), one())))]
         if T.names_of(int(obj.data_type.value)) == T.B:
             ops += [('split_and', lambda: R.split_and(obj)), ('refactor_reference', lambda: R.refactor_reference(obj, 'A')),
                     ('get_conjuncts', lambda: R.get_conjuncts(obj)), ('predicate_from_expression', lambda: A.predicate_from_expression(obj)),
@@ -327,7 +343,9 @@ def explore(base, label, depth, r, msg_types):
                                     problems.append((f'{name.split("=")[0].rstrip("(")} returned an object that shares the metadata dictionary of an existing one',
                                                      f'{label}: {name} on {type(target).__name__} «{_s(target)}»: the new {type(q).__name__} shares metadata with an existing {type(old_ids[mid]).__name__}'))
                                     break
-                    if new and d + 1 < depth:
+                    # constructor probes only test that building a node around an object leaves it alone;
+                    # their results do not open new states
+                    if new and d + 1 < depth and not name.startswith('Hpl'):
                         k2 = key | frozenset(snap(o)[0] for o in new)
                         if k2 != key:
                             nxt.append((pool + new[:3], hist + (f'{name}@{ti}',)))
@@ -454,7 +472,7 @@ def replay(w):
 def describe(tier):
     b = bounds(tier)
     return {
-        'rule': f"bases: parser results for every Bool/Num term with <= {b['nodes']} nodes (as expression and predicate), a 26-text family aimed at rewrites that build new parents around existing children (aggregates over sets, implications, negated disjunctions, quantifier splitting, operand flipping), 5 annotated properties, 6 API-built nodes around deliberately untyped shared children. Pool = base + up to 13 sub-objects + objects returned by earlier calls. Alphabet: ~45 calls per expression (printers, hash/==, children/iterate, 4 reference queries, is_fully_typed, cast to 12 type sets, but() same/changed per field, reshape, 2 replacements, simplify, split_and, refactor_reference, the this/var rewrites, constructors of Not/And/predicate/event around the object, schema check), predicate, event and property calls likewise. All sequences of <= {b['depth']} state-changing calls (family: {b['family_depth']}); every call is followed by a deep snapshot comparison of every pool object.",
+        'rule': f"bases: parser results for every Bool/Num term with <= {b['nodes']} nodes (as expression and predicate), a 26-text family aimed at rewrites that build new parents around existing children (aggregates over sets, implications, negated disjunctions, quantifier splitting, operand flipping), 5 annotated properties, 6 API-built nodes around deliberately untyped shared children. Pool = base + up to 13 sub-objects + objects returned by earlier calls. Alphabet: ~45 calls per expression (printers, hash/==, children/iterate, 4 reference queries, is_fully_typed, cast to 12 type sets, but() same/changed per field, reshape, 2 replacements, simplify, split_and, refactor_reference, the this/var rewrites, constructors of every node class (operators, accessors, sets, ranges, function calls, quantifiers, predicates, events) around the object, schema check), predicate, event and property calls likewise. All sequences of <= {b['depth']} state-changing calls (family: {b['family_depth']}); every call is followed by a deep snapshot comparison of every pool object.",
         'bounds': b,
         'exhaustive': True,
         'assumptions': ['metadata is a mutable annotation by design: the harness itself writes one key before the first snapshot'],
